@@ -118,7 +118,7 @@ func (e *fnEnc) strConcat(a, b Term) Term {
 func (e *fnEnc) calleeName(cc *ssa.CallCommon) (string, *types.Signature) {
 	if cc.IsInvoke() {
 		recv := types.Unalias(cc.Value.Type())
-		return "(" + types.TypeString(recv, nil) + ")." + cc.Method.Name(), cc.Method.Type().(*types.Signature)
+		return canonFuncName("(" + types.TypeString(recv, nil) + ")." + cc.Method.Name()), cc.Method.Type().(*types.Signature)
 	}
 	if f := cc.StaticCallee(); f != nil {
 		return canonFuncName(f.String()), f.Signature
@@ -162,6 +162,8 @@ func (e *fnEnc) call(c *blockCtx, in ssa.Instruction, cc *ssa.CallCommon) []Term
 	sig := cc.Signature()
 	// builtins
 	if b, ok := cc.Value.(*ssa.Builtin); ok {
+		e.curArgs = nil
+		e.effectObligations(c, in, "builtin", b.Name())
 		return e.builtin(c, in, b, cc)
 	}
 	name, _ := e.calleeName(cc)
@@ -172,6 +174,12 @@ func (e *fnEnc) call(c *blockCtx, in ssa.Instruction, cc *ssa.CallCommon) []Term
 		argTypes = append(argTypes, cc.Value.Type())
 	}
 	for _, a := range cc.Args {
+		if fa, ok := a.(*ssa.FieldAddr); ok {
+			if m := e.guardedField(fa); m != nil && !strings.HasPrefix(name, "(*sync.") {
+				// the address of a guarded field escapes to a callee: counts as a write access
+				e.guardedAccess(c, in, a, true)
+			}
+		}
 		if _, isLV := e.lvals[a]; isLV {
 			e.fail("address of a scalar field/element passed to call %s", name)
 		}
@@ -305,6 +313,10 @@ func (e *fnEnc) calleeSig(name string, cc *ssa.CallCommon) *types.Signature {
 	if cc != nil && cc.IsInvoke() {
 		return cc.Method.Type().(*types.Signature)
 	}
+	if cc != nil && cc.StaticCallee() != nil && cc.StaticCallee().Signature.TypeParams() == nil && len(cc.StaticCallee().TypeArgs()) > 0 {
+		// an instantiation of a generic function: use the instantiated signature
+		return cc.StaticCallee().Signature
+	}
 	if f := e.eng.funcs[name]; f != nil {
 		return f.Signature
 	}
@@ -356,10 +368,25 @@ func (e *fnEnc) applyContract(c *blockCtx, in ssa.Instruction, name string, ctr 
 	for k, v := range e.curBindings {
 		vars[k] = v
 	}
+	e.tpBind = map[string]types.Type{}
+	if f := e.eng.funcs[name]; f != nil && len(argTypes) > 0 {
+		if rtp := f.Signature.RecvTypeParams(); rtp != nil {
+			at := types.Unalias(argTypes[0])
+			if p, ok := at.(*types.Pointer); ok {
+				at = types.Unalias(p.Elem())
+			}
+			if n, ok := at.(*types.Named); ok && n.TypeArgs() != nil && n.TypeArgs().Len() == rtp.Len() {
+				for i := 0; i < rtp.Len(); i++ {
+					e.tpBind[rtp.At(i).Obj().Name()] = n.TypeArgs().At(i)
+				}
+			}
+		}
+	}
 	pre := c.st.clone()
 	env := &specEnv{enc: e, vars: vars, st: c.st, old: pre, pkg: ctr.Pkg}
 	ord := e.callOrdinal(in, name)
 	label := fmt.Sprintf("%s#%d", shortCallee(name), ord)
+	e.lockPreconditions(c, in, name, ctr)
 	for i, cl := range ctr.Get("requires") {
 		g := e.evalBool(cl.E, env)
 		e.obligation("pre", fmt.Sprintf("%s:%s", label, clauseLabel(cl, i)), c.reach, g, cl.Text, e.posOf(in), false)
@@ -393,6 +420,10 @@ func (e *fnEnc) applyContract(c *blockCtx, in ssa.Instruction, name string, ctr 
 	for _, cl := range ctr.Get("ensures") {
 		e.assert(imp(c.reach, e.evalBool(cl.E, post)))
 	}
+	for _, cl := range ctr.Get("ensures_assumed") {
+		e.assert(imp(c.reach, e.evalBool(cl.E, post)))
+		e.assume("assumed postcondition of " + shortCallee(name) + " (not verified against its body): " + cl.Text)
+	}
 	if ctr.Assumed {
 		e.assume("assumed contract: " + shortCallee(name) + " (" + ctr.AssumeWhy + ")")
 	}
@@ -415,6 +446,49 @@ func (e *fnEnc) applyAssigns(c *blockCtx, ctr *FuncContract, env *specEnv) {
 		case txt == "nothing":
 		case txt == "heap" || txt == "*":
 			e.havocAll(c.st)
+		case strings.HasPrefix(txt, "heap except "):
+			// everything may change except the listed components
+			// ("allelems(T)" or "all T.f", separated by '+')
+			type keep struct {
+				comp string
+				val  Term
+			}
+			var keeps []keep
+			for _, part := range strings.Split(txt[len("heap except "):], "+") {
+				part = strings.TrimSpace(part)
+				switch {
+				case strings.HasPrefix(part, "allelems("):
+					t, ok := e.eng.lookupType(env.pkg, part[len("allelems("):len(part)-1])
+					if !ok {
+						e.fail("assigns %s: unknown type", txt)
+					}
+					comp, cs := e.elemCompT(t)
+					keeps = append(keeps, keep{comp, e.heapGet(c.st, comp, cs)})
+				case strings.HasPrefix(part, "all "):
+					nm := strings.TrimSpace(part[4:])
+					k := strings.LastIndex(nm, ".")
+					if k < 0 {
+						e.fail("assigns %s: all T.f expected", txt)
+					}
+					t, ok := e.eng.lookupType(env.pkg, nm[:k])
+					if !ok {
+						e.fail("assigns %s: unknown type %s", txt, nm[:k])
+					}
+					si := e.structOf(t)
+					i := si.fieldIndex(nm[k+1:])
+					if i < 0 {
+						e.fail("assigns %s: no field %s", txt, nm)
+					}
+					comp, cs := e.fieldComp(si, i)
+					keeps = append(keeps, keep{comp, e.heapGet(c.st, comp, cs)})
+				default:
+					e.fail("assigns %s: cannot keep %q", txt, part)
+				}
+			}
+			e.havocAll(c.st)
+			for _, k := range keeps {
+				e.heapSet(c.st, k.comp, k.val)
+			}
 		case strings.HasSuffix(txt, ".*"):
 			// all fields of one object
 			ex, err := parseExpr(strings.TrimSuffix(txt, ".*"))
@@ -433,6 +507,14 @@ func (e *fnEnc) applyAssigns(c *blockCtx, ctr *FuncContract, env *specEnv) {
 			dc, ds, vc, vsrt := e.mapComps(ks, vs)
 			e.heapSet(c.st, dc, store(e.heapGet(c.st, dc, ds), v.t, e.freshConst("havoc.dom", ArrayOf(ks, SBool))))
 			e.heapSet(c.st, vc, store(e.heapGet(c.st, vc, vsrt), v.t, e.freshConst("havoc.val", ArrayOf(ks, vs))))
+		case strings.HasPrefix(txt, "allelemsof("):
+			ex, err := parseExpr(txt[len("allelemsof(") : len(txt)-1])
+			if err != nil {
+				e.fail("assigns %s: %v", txt, err)
+			}
+			v := e.evalSpec(ex, env)
+			comp, cs := e.elemCompT(types.Unalias(v.typ).Underlying().(*types.Slice).Elem())
+			e.heapSet(c.st, comp, e.freshConst("havoc."+comp, cs))
 		case strings.HasPrefix(txt, "allelems("):
 			t, ok := e.eng.lookupType(env.pkg, txt[len("allelems("):len(txt)-1])
 			if !ok {
@@ -766,14 +848,30 @@ func (e *fnEnc) effectObligations(c *blockCtx, in ssa.Instruction, kind, callee 
 					}
 				}
 			}
+		} else if kind == "builtin" {
+			if tn != callee {
+				continue
+			}
+			for _, b := range e.fn.Blocks {
+				for _, i2 := range b.Instrs {
+					if ci, ok := i2.(ssa.CallInstruction); ok && i2 != in && i2.Pos() < in.Pos() {
+						if bb, ok := ci.Common().Value.(*ssa.Builtin); ok && bb.Name() == callee {
+							ord++
+						}
+					}
+				}
+			}
 		} else {
 			if !strings.HasSuffix(shortCallee(callee), tn) && shortCallee(callee) != tn {
 				continue
 			}
 			ord = e.callOrdinal(in, callee)
 		}
-		if fmt.Sprint(ord) != tord {
+		if fmt.Sprint(ord) != tord && tord != "*" {
 			continue
+		}
+		if tord == "*" {
+			target = fmt.Sprintf("%s#%d", tn, ord)
 		}
 		if f[1] == "sets" {
 			// ghost update: <obj>.<ghostfield> = <expr>
@@ -869,6 +967,11 @@ func (e *fnEnc) assignsTargets() (map[string][]Term, bool) {
 		case txt == "nothing":
 		case txt == "heap" || txt == "*":
 			return nil, true
+		case strings.HasPrefix(txt, "heap except "):
+			if !e.ctr.Assumed {
+				e.fail("assigns %s: only allowed in assumed contracts", txt)
+			}
+			return nil, true
 		case strings.HasSuffix(txt, ".*"):
 			ex, err := parseExpr(strings.TrimSuffix(txt, ".*"))
 			if err != nil {
@@ -885,6 +988,14 @@ func (e *fnEnc) assignsTargets() (map[string][]Term, bool) {
 			}
 			si := e.structOf(typ)
 			comp, _ := e.fieldComp(si, si.fieldIndex(t[k+1:]))
+			out[comp] = append(out[comp], T(SInt, "*"))
+		case strings.HasPrefix(txt, "allelemsof("):
+			ex, err := parseExpr(txt[len("allelemsof(") : len(txt)-1])
+			if err != nil {
+				e.fail("assigns %s: %v", txt, err)
+			}
+			v := e.evalSpec(ex, env)
+			comp, _ := e.elemCompT(types.Unalias(v.typ).Underlying().(*types.Slice).Elem())
 			out[comp] = append(out[comp], T(SInt, "*"))
 		case strings.HasPrefix(txt, "allelems("):
 			t, ok := e.eng.lookupType(env.pkg, txt[len("allelems("):len(txt)-1])
